@@ -29,6 +29,8 @@ CLASSIC = ["H", "T", "this", "other", "state", "f", "rhs", "source", "lhs", "o",
            "value", "result", "Self_", "Output", "Rhs", "Target"]
 CLASSIC_LT = ["'a", "'b", "'x", "'this"]
 
+FIELD_PAIRS = [("val", "_val"), ("_this", "this"), ("f", "_f"), ("other", "other_"), ("r#type", "type_"), ("state", "_state"), ("_0", "_1"), ("o", "_o")]
+
 ROLE_TOKENS = {
     "type": ["Ty", "Ty2"],
     "field": ["f0", "f1", "f2", "f3"],
@@ -359,13 +361,17 @@ def judge_pair(base, trans, mapping, control=None):
             # all inside those items (the renamed item by itself is fine).
             ranges = dx_item_ranges(trans.code)
             inside = lambda x: x.get("rel") is not None and any(a <= x["rel"] <= b for a, b in ranges)
-            if SHADOW in trans.code or SHADOW2 in trans.code or not all(x["code"] in (TRAIT_CODES | NAME_CODES) and inside(x) for x in outside):
+            # (a name bound / defined twice in generated code - E0416, E0415, E0428, E0124, located in the output or naming an identifier
+            # with the generator's reserved `__` prefix - is never the doing of user tokens that were renamed to distinct names;
+            # other errors inside the same item are then followers of it)
+            dup = [x for x in trans.diags if x["level"] == "error" and x["code"] in ("E0416", "E0415", "E0428", "E0124") and (x["in_derive_ex"] or "`__" in (x["message"] or ""))]
+            if SHADOW in trans.code or SHADOW2 in trans.code or not all((x["code"] in (TRAIT_CODES | NAME_CODES) or dup) and inside(x) for x in outside):
                 return ("harness", f"{d['code']}: {str(d['message'])[:120]}")
             if control is None:
                 return ("need-control", "")
             if control.status == "inconclusive" or any(x["level"] == "error" and inside(x) for x in control.diags):
                 return ("harness", f"{d['code']}: {str(d['message'])[:120]}")
-            d = outside[0]
+            d = (dup or outside)[0]
             return ("compiles-differently", f"{d['code']}: {(d['message'] or '')[:160]}")
         if who == "harness":
             return ("harness", f"{d['code']}: {str(d['message'])[:120]}")
@@ -474,6 +480,15 @@ def run(rep, tier, rng):
                 ct = C.Case(f"w{len(sweep)}", apply_map(b["code"], mapping), {"base": bi, "kind": "rename", "mapping": mapping})
                 sweep.append(ct)
                 trs.append(ct)
+        # two fields renamed at once to names that differ only in underscores / rawness (bindings derived from field names must
+        # stay distinct): fixed pairs, on every rich base with two named fields
+        if has("f0", b["code"]) and has("f1", b["code"]):
+            for n0, n1 in FIELD_PAIRS:
+                mapping = {"f0": n0, "f1": n1}
+                ct = C.Case(f"w{len(sweep)}", apply_map(b["code"], mapping), {"base": bi, "kind": "rename", "mapping": mapping})
+                sweep.append(ct)
+                trs.append(ct)
+                rep.count("field_pair_renamings")
         plan.append((cb, trs, b))
     cases += sweep
     rep.count("sweep_pairs", len(sweep))
